@@ -535,6 +535,7 @@ def generate_math():
              '   _verify_domain_constraints methods, translated into PyAst.pfun -- do not edit *)',
              'From Coq Require Import ZArith List String.', 'From SM Require Import PyAst.',
              'Import ListNotations.', 'Open Scope string_scope.', '']
+    value_star = []
     t = parse(os.path.join(SRC, '_private', 'math_functions.py'))
     for node in t.body:
         if isinstance(node, ast.FunctionDef):
@@ -547,10 +548,28 @@ def generate_math():
                 if m.name == '_verify_domain_constraints':
                     tr = Translator('%s._verify_domain_constraints' % cls.name)
                     lines.append('Definition gen_verify_%s : pfun := %s.' % (cls.name, tr.function(m)))
+                if m.name == '_value_formula':
+                    if cls.name in ('Add', 'Multiply'):
+                        # return mf.add(*inner_values): the n-ary shape, recorded as a table entry
+                        body = [s_ for s_ in m.body if not (isinstance(s_, ast.Expr) and isinstance(s_.value, ast.Constant))]
+                        ok = (len(body) == 1 and isinstance(body[0], ast.Return) and isinstance(body[0].value, ast.Call)
+                              and isinstance(body[0].value.func, ast.Attribute) and isinstance(body[0].value.func.value, ast.Name)
+                              and body[0].value.func.value.id == 'mf' and len(body[0].value.args) == 1
+                              and isinstance(body[0].value.args[0], ast.Starred) and isinstance(body[0].value.args[0].value, ast.Name)
+                              and m.args.vararg is not None and body[0].value.args[0].value.id == m.args.vararg.arg
+                              and not m.args.args[1:] and not body[0].value.keywords and not m.decorator_list)
+                        if not ok:
+                            raise TieError('_value_formula of %s is not `return mf.f(*inner_values)`' % cls.name)
+                        value_star.append((cls.name, body[0].value.func.attr))
+                    else:
+                        tr = Translator('%s._value_formula' % cls.name)
+                        lines.append('Definition gen_value_%s : pfun := %s.' % (cls.name, tr.function(m)))
                 if m.name in ('_numeric_partial_formula', '_numeric_partial_formula_left', '_numeric_partial_formula_right'):
                     tr = Translator('%s.%s' % (cls.name, m.name))
                     suffix = m.name[len('_numeric_partial_formula'):]
                     lines.append('Definition gen_formula%s_%s : pfun := %s.' % (suffix, cls.name, tr.function(m)))
+    lines.append('Definition gen_value_star : list (string * string) := ' +
+                 coq_list(['(%s, %s)' % (coq_str(c), coq_str(f)) for c, f in sorted(value_star)]) + '.')
     return '\n'.join(lines) + '\n'
 
 
@@ -1795,6 +1814,76 @@ def generate_ctor():
     return '\n'.join(lines) + '\n'
 
 
+# ---------------------------------------------------------------- translator to coq/SymRev.v
+class SymRevTranslator(SymTranslator):
+    """_compute_synthetic_partials bodies -> SymRev.vfun; expressions as in SymTranslator"""
+
+    def vblock(self, stmts):
+        out = []
+        for st in stmts:
+            if isinstance(st, ast.Expr) and isinstance(st.value, ast.Constant):
+                continue
+            out.append(self.vstmt(st))
+        return coq_list(out)
+
+    def vstmt(self, st):
+        if isinstance(st, ast.Pass):
+            return 'VSPass'
+        if isinstance(st, ast.Assign) and len(st.targets) == 1 and isinstance(st.targets[0], ast.Name):
+            return '(VSAssign %s %s)' % (coq_str(st.targets[0].id), self.expr(st.value))
+        if isinstance(st, ast.For) and not st.orelse:
+            if isinstance(st.target, ast.Name):
+                return '(VSFor %s %s %s)' % (coq_str(st.target.id), self.expr(st.iter), self.vblock(st.body))
+            if isinstance(st.target, ast.Tuple) and len(st.target.elts) == 2 and all(isinstance(x, ast.Name) for x in st.target.elts) \
+                    and isinstance(st.iter, ast.Call) and isinstance(st.iter.func, ast.Name) and st.iter.func.id == 'enumerate' \
+                    and len(st.iter.args) == 1 and not st.iter.keywords:
+                return '(VSForEnum %s %s %s %s)' % (coq_str(st.target.elts[0].id), coq_str(st.target.elts[1].id),
+                                                   self.expr(st.iter.args[0]), self.vblock(st.body))
+        if isinstance(st, ast.Expr) and isinstance(st.value, ast.Call) and not st.value.keywords:
+            c = st.value
+            f = c.func
+            if isinstance(f, ast.Attribute) and f.attr == '_compute_synthetic_partials' and len(c.args) == 2 \
+                    and isinstance(c.args[0], ast.Name) and c.args[0].id == 'accumulator':
+                return '(VSRev %s %s)' % (self.expr(f.value), self.expr(c.args[1]))
+            if isinstance(f, ast.Attribute) and f.attr == 'add_to' and isinstance(f.value, ast.Name) and f.value.id == 'accumulator' \
+                    and len(c.args) == 2 and isinstance(c.args[0], ast.Name) and c.args[0].id == 'self':
+                return '(VSAddTo %s)' % self.expr(c.args[1])
+        self.fail('statement', st)
+
+    def vfunction(self, fd):
+        if getattr(fd, 'decorator_list', None):
+            self.fail('decorated function', fd)
+        a = fd.args
+        if a.kwonlyargs or a.kwarg or a.posonlyargs or a.vararg or a.defaults or \
+                [p.arg for p in a.args] != ['self', 'accumulator', 'multiplier']:
+            self.fail('parameters', fd)
+        return '{| v_params := ["accumulator"; "multiplier"]; v_body := %s |}' % self.vblock(fd.body)
+
+
+def generate_symrev():
+    lines = ['(* GENERATED by harness/tie_extract.py: the current source of every _compute_synthetic_partials',
+             '   method, translated into SymRev.vfun -- do not edit *)',
+             'From Coq Require Import ZArith List String.', 'From SM Require Import SymAst SymRev.',
+             'Import ListNotations.', 'Open Scope string_scope.', '']
+    owners = []
+    files = [('expression', fn) for fn in EXPR_FILES] + [('base_expression', fn) for fn in BASE_FILES]
+    for sub, fn in files:
+        t = parse(os.path.join(SRC, '_private', sub, fn + '.py'))
+        for node in t.body:
+            if isinstance(node, ast.ClassDef):
+                for m in methods_of(node):
+                    if m.name == '_compute_synthetic_partials':
+                        body = [s for s in m.body if not (isinstance(s, ast.Expr) and isinstance(s.value, ast.Constant))]
+                        if len(body) == 1 and isinstance(body[0], ast.Raise):
+                            continue
+                        tr = SymRevTranslator('%s._compute_synthetic_partials' % node.name)
+                        lines.append('Definition gen_symrev_%s : vfun := %s.' % (node.name, tr.vfunction(m)))
+                        owners.append(node.name)
+    lines.append('')
+    lines.append('Definition gen_symrev_owners : list string := ' + coq_list([coq_str(c) for c in sorted(owners)]) + '.')
+    return '\n'.join(lines) + '\n'
+
+
 def write_if_changed(path, text):
     old = open(path).read() if os.path.exists(path) else None
     if old != text:
@@ -1870,6 +1959,14 @@ def main():
         print('TIE-TRANSLATE-FAILED: %s' % ex)
     if write_if_changed(os.path.join(coqdir, 'GeneratedCtor.v'), ctext):
         print('GeneratedCtor.v rewritten')
+    try:
+        vtext = generate_symrev()
+    except (TieError, SyntaxError, OSError) as ex:
+        vtext = ('(* GENERATED: the translator FAILED CLOSED: %s *)\n'
+                 'Definition symrev_translator_failed : False := I.\n') % str(ex).replace('*)', '* )')
+        print('TIE-TRANSLATE-FAILED: %s' % ex)
+    if write_if_changed(os.path.join(coqdir, 'GeneratedSymRev.v'), vtext):
+        print('GeneratedSymRev.v rewritten')
     out = sys.argv[1] if len(sys.argv) > 1 else os.path.join(os.path.dirname(os.path.dirname(os.path.abspath(__file__))), 'coq', 'Generated.v')
     try:
         text = generate()
